@@ -398,6 +398,7 @@ func liveTree(msg *capnp.Message) string {
 	msg.ResetReadLimit(1 << 40)
 	root, err := msg.Root()
 	var sb strings.Builder
+	treeBudget = 3000
 	tree(&sb, root, err)
 	return sb.String()
 }
